@@ -6,6 +6,7 @@ semantics.  Symbolic branches ask State.decide(); paths are explored by
 re-execution under recorded decision prefixes.
 """
 import ast
+import copy as _copy
 import os
 import z3
 from fractions import Fraction
@@ -53,6 +54,59 @@ class SModule(object):
 
     def __repr__(self):
         return '<module %s>' % self.name
+
+
+class _TrackedKw(dict):
+    """Keyword arguments of a modelled library call; remembers which ones the model read."""
+
+    def __init__(self, d):
+        dict.__init__(self, d)
+        self._read = set()
+
+    def __getitem__(self, k):
+        self._read.add(k)
+        return dict.__getitem__(self, k)
+
+    def get(self, k, default=None):
+        self._read.add(k)
+        return dict.get(self, k, default)
+
+    def pop(self, k, *default):
+        self._read.add(k)
+        return dict.pop(self, k, *default)
+
+    def __contains__(self, k):
+        self._read.add(k)
+        return dict.__contains__(self, k)
+
+    def items(self):
+        self._read.update(dict.keys(self))
+        return dict.items(self)
+
+    def keys(self):
+        self._read.update(dict.keys(self))
+        return dict.keys(self)
+
+    def values(self):
+        self._read.update(dict.keys(self))
+        return dict.values(self)
+
+    def __iter__(self):
+        self._read.update(dict.keys(self))
+        return dict.__iter__(self)
+
+    def __bool__(self):
+        return dict.__len__(self) > 0
+
+    def unread(self):
+        return set(dict.keys(self)) - self._read
+
+
+class SFlags(object):
+    """`a.flags` of a numpy array (only `.writeable`)."""
+
+    def __init__(self, arr):
+        self.arr = arr
 
 
 class SBuiltin(object):
@@ -224,8 +278,47 @@ class Program(object):
 
 # ---------------------------------------------------------------------------
 
-def _warn_only_if(node):
-    """`if c: <build a message in locals>; warnings.warn(msg)` with no else: observable only through the warning."""
+def _pure_message_expr(e):
+    """Names, attributes, literals, subscripts, string concatenation and `.format(...)`: evaluating it has no effect."""
+    for sub in ast.walk(e):
+        if isinstance(sub, ast.Call):
+            if not (isinstance(sub.func, ast.Attribute) and sub.func.attr == 'format'):
+                return False
+        elif not isinstance(sub, (ast.Name, ast.Attribute, ast.Constant, ast.Subscript, ast.Tuple, ast.BinOp, ast.Add, ast.Mod,
+                                  ast.Load, ast.JoinedStr, ast.FormattedValue, ast.keyword, ast.Index if hasattr(ast, 'Index') else ast.Load)):
+            return False
+    return True
+
+
+def _warn_only_function(fnode):
+    """A helper whose whole body is `<build a message in locals>; warnings.warn(msg)` (a docstring is allowed)."""
+    cached = getattr(fnode, '_warn_only_fn', None)
+    if cached is not None:
+        return cached
+    ok, has_warn = True, False
+    for st in fnode.body:
+        if isinstance(st, ast.Expr) and isinstance(st.value, ast.Constant):
+            continue
+        if isinstance(st, ast.Expr) and isinstance(st.value, ast.Call):
+            f = st.value.func
+            if isinstance(f, ast.Attribute) and f.attr == 'warn' and isinstance(f.value, ast.Name) and f.value.id == 'warnings' \
+                    and all(_pure_message_expr(a) for a in st.value.args) and not st.value.keywords:
+                has_warn = True
+                continue
+            ok = False
+        elif isinstance(st, (ast.Assign, ast.AugAssign)):
+            tgts = st.targets if isinstance(st, ast.Assign) else [st.target]
+            if not all(isinstance(t, ast.Name) for t in tgts) or not _pure_message_expr(st.value):
+                ok = False
+        else:
+            ok = False
+    fnode._warn_only_fn = ok and has_warn
+    return fnode._warn_only_fn
+
+
+def _warn_only_if(node, resolve=None):
+    """`if c: <build a message in locals>; warnings.warn(msg)` with no else: observable only through the warning.
+    `self.helper(<pure message arguments>)` counts as the warning when the helper is itself nothing but that."""
     cached = getattr(node, '_warn_only', None)
     if cached is not None:
         return cached
@@ -237,6 +330,12 @@ def _warn_only_if(node):
             if isinstance(f, ast.Attribute) and f.attr == 'warn' and isinstance(f.value, ast.Name) and f.value.id == 'warnings':
                 has_warn = True
                 continue
+            if isinstance(f, ast.Attribute) and isinstance(f.value, ast.Name) and f.value.id == 'self' and resolve is not None \
+                    and all(_pure_message_expr(a) for a in st.value.args) and all(_pure_message_expr(k.value) for k in st.value.keywords):
+                fn = resolve(f.attr)
+                if fn is not None and _warn_only_function(fn):
+                    has_warn = True
+                    continue
             ok = False
         elif isinstance(st, (ast.Assign, ast.AugAssign)):
             tgts = st.targets if isinstance(st, ast.Assign) else [st.target]
@@ -282,6 +381,7 @@ class Interp(object):
         self.models = {}
         from . import models
         models.install(self)
+        self.reset_module_state()
 
     # ------------------------------------------------------------------ modules
     def module_env(self, m):
@@ -292,7 +392,21 @@ class Interp(object):
         for node in m.tree.body:
             self.exec_toplevel(node, env, m)
         m.loaded = True
+        # module-level mutable containers are process state: every run (path, side) starts from the freshly imported module
+        m.pristine = {}
+        for k, v in env.vars.items():
+            if isinstance(v, (dict, list, set)):
+                try:
+                    m.pristine[k] = _copy.deepcopy(v)
+                except Exception:       # noqa
+                    pass
         return env
+
+    def reset_module_state(self):
+        for m in self.prog.modules.values():
+            if m.env is not None and getattr(m, 'pristine', None):
+                for k, v in m.pristine.items():
+                    m.env.vars[k] = _copy.deepcopy(v)
 
     def import_name(self, dotted):
         root = dotted.split('.')[0]
@@ -485,13 +599,20 @@ class Interp(object):
             tst = node.test
             if isinstance(tst, ast.UnaryOp) and isinstance(tst.op, ast.Not):
                 tst = tst.operand
-            if isinstance(tst, ast.Name) and _warn_only_if(node):
+            def resolve(name, env=env):
+                try:
+                    me = env.lookup('self')
+                except KeyError:
+                    return None
+                f = self.find_method(me.cls, name) if isinstance(me, SObj) else None
+                return f.node if f is not None else None
+            if isinstance(tst, ast.Name) and _warn_only_if(node, resolve):
                 self.lookup(tst.id, env)
                 return       # the branch only builds and emits a warning (no-op, DESIGN 2.1): no case split
-            c = yield from self.ev(node.test, env)
-            if is_sym(c) and isinstance(node.test, ast.Call) and _warn_only_if(node):
-                return       # `if np.any(...): <warn>`: test evaluated (it may raise), no case split
-            if self.truth(c):
+            c = yield from self.ev(tst, env)
+            if is_sym(c) and isinstance(tst, ast.Call) and _warn_only_if(node, resolve):
+                return       # `if [not] np.any(...): <warn>`: test evaluated (it may raise), no case split
+            if self.truth(c) != (tst is not node.test):          # `not x` is `not truth(x)`
                 yield from self.exec_block(node.body, env)
             else:
                 yield from self.exec_block(node.orelse, env)
@@ -1046,6 +1167,10 @@ class Interp(object):
             return a is b or (isinstance(a, SEnum) and a == b)
         if type(a) is not type(b):
             return False
+        if isinstance(a, SBuiltin) and a.bound is None and b.bound is None:
+            return a.name == b.name          # the builtin types and functions are singletons
+        if isinstance(a, SExcClass):
+            return a.name == b.name
         return a is b
 
     def contains(self, container, x):
@@ -1758,6 +1883,8 @@ class Interp(object):
                 return shape_size(obj.shape)
             if name == 'T' and len(obj.shape) == 1:
                 return obj
+            if name == 'flags':
+                return SFlags(obj)
             return SBuiltin('ndarray.' + name, bound=obj)
         if isinstance(obj, list):
             return SBuiltin('list.' + name, bound=obj)
@@ -1765,6 +1892,10 @@ class Interp(object):
             return SBuiltin('dict.' + name, bound=obj)
         if isinstance(obj, (str, SStr)):
             return SBuiltin('str.' + name, bound=obj)
+        if isinstance(obj, SFlags):
+            if name == 'writeable':
+                return obj.arr.token not in getattr(self.st, 'readonly', ())
+            raise Unsupported('ndarray.flags.%s' % name)
         if isinstance(obj, SEnum):
             if name == 'value':
                 return obj.value
@@ -1801,6 +1932,15 @@ class Interp(object):
             return
         if isinstance(obj, SRecord):
             obj.fields[name] = v
+            return
+        if isinstance(obj, SFlags):
+            # read-only-ness is kept per storage: exact for an array that owns its data and has no earlier views
+            if name != 'writeable' or not isinstance(v, bool) or obj.arr.fwd is not None:
+                raise Unsupported('ndarray.flags.%s = %r' % (name, v))
+            ro = getattr(self.st, 'readonly', None)
+            if ro is None:
+                ro = self.st.readonly = set()
+            (ro.discard if v else ro.add)(obj.arr.token)
             return
         if isinstance(obj, SQty):
             raise Unsupported('attribute assignment on a quantity')
@@ -1915,9 +2055,13 @@ class Interp(object):
                 raise Unsupported('no model for %s' % fn.name)
             if fn.bound is not None:
                 args = [fn.bound] + list(args)
-            r = m(self, list(args), kwargs)
+            kwt = _TrackedKw(kwargs)
+            r = m(self, list(args), kwt)
             if hasattr(r, '__next__') and hasattr(r, 'send'):
                 r = yield from r
+            if kwt.unread():
+                # a model that never looked at a keyword would silently compute something else (A20)
+                raise Unsupported('the model of %s ignores keyword(s) %s' % (fn.name, ', '.join(sorted(kwt.unread()))))
             return r
         if isinstance(fn, SUFun):
             (x,) = args
